@@ -1,6 +1,7 @@
 package gen
 
 import (
+	"encoding/json"
 	"fmt"
 	"math"
 	"math/big"
@@ -80,7 +81,8 @@ func RandType(r *rand.Rand, o TypeOpts, depth int) reflect.Type {
 	switch {
 	case k < 4:
 		if !o.NoStd && r.IntN(12) == 0 {
-			return Pick(r, []reflect.Type{reflect.TypeFor[time.Time](), reflect.TypeFor[*big.Rat](), reflect.TypeFor[*big.Float]()})
+			// json.Number: kind string, but encoding/json writes and reads it as a number
+			return Pick(r, []reflect.Type{reflect.TypeFor[time.Time](), reflect.TypeFor[*big.Rat](), reflect.TypeFor[*big.Float](), reflect.TypeFor[json.Number](), reflect.TypeFor[*json.Number]()})
 		}
 		return Pick(r, basicTypes)
 	case k == 4:
@@ -218,6 +220,12 @@ func Fill(r *rand.Rand, v reflect.Value, class ValueClass, depth int) {
 		return
 	case reflect.TypeFor[big.Float]():
 		v.Set(reflect.ValueOf(*big.NewFloat(float64(r.IntN(1000)) / 8)))
+		return
+	case reflect.TypeFor[json.Number]():
+		if class == VZero {
+			return // the empty Number is written as 0
+		}
+		v.SetString(Pick(r, []string{"0", "1", "-7", "2.5", "1e3", "-0.125", "12345678901234567890", "1E-2"}))
 		return
 	}
 	switch t.Kind() {
